@@ -7,7 +7,7 @@
     action/evidence/vote.go         runAllegationVoteTransaction
     action/evidence/release.go      runReleaseTransaction
     data/evidence/store.go          PerformAllegation, Vote, HandleRelease, IsFrozenValidator,
-                                    CheckRequestExists (iterates COMMITTED keys only)
+                                    CheckRequestExists (IterateRangeAll: all visible requests)
     data/evidence/allegation.go     CleanTracker
     data/evidence/history.go        IsFrozen, ReleaseReady
     data/evidence/status.go         IsActiveValidator
@@ -87,8 +87,6 @@ structure Opts where
 structure State where
   /-- `es__ark_<id>` -/
   reqs : List (ReqId × Request)
-  /-- request ids whose KEY is in the committed tree (what `State.IterateRange` walks) -/
-  committed : List ReqId
   /-- `es__atark`: keys of the `Requests` map -/
   tracker : List ReqId
   /-- `es__ssvk_<addr>` -/
@@ -109,7 +107,7 @@ structure State where
   delayed : List ((Int × Addr) × Int)
   deriving DecidableEq, Repr
 
-def State.empty : State := ⟨[], [], [], [], [], [], [], [], [], 0, []⟩
+def State.empty : State := ⟨[], [], [], [], [], [], [], [], 0, []⟩
 
 /-- stored amounts read as 0 when absent (`DelegationStore.Get`) -/
 def getI {K : Type} [DecidableEq K] (l : List (K × Int)) (k : K) : Int := (alookup k l).getD 0
@@ -136,13 +134,12 @@ def isActiveIn (vs : List (Addr × VStat)) (a : Addr) : Bool :=
 
 def isActive (st : State) (a : Addr) : Bool := isActiveIn st.vstat a
 
-/-- `EvidenceStore.CheckRequestExists`: `IterateRequests` walks the keys of the committed tree and
-    reads their current values, so a request created in the running block is not seen -/
+/-- `EvidenceStore.CheckRequestExists`: `IterateRequests` goes through `State.IterateRangeAll`
+    (d2f2af2) and visits every request `Get` would find, also those opened earlier in the same
+    block.  (The other store iterations of this subsystem — suspicious validators, validator
+    statuses, validator records — still walk committed keys only.) -/
 def requestExists (st : State) (acc : Addr) : Bool :=
-  st.committed.any fun id =>
-    match alookup id st.reqs with
-    | some r => r.accused == acc
-    | none => false
+  st.reqs.any fun p => p.2.accused == acc
 
 /-! ## sorting (Go: `sort.Strings`, `sort.Slice` by address bytes) -/
 
@@ -471,7 +468,6 @@ inductive Op where
   | beginBlock (o : Opts) (h now : Int) (cv : List (Addr × Int)) (prev : List (Addr × ValRec))
   | elect (minSelf top h : Int) (pop : List (Addr × Int))
   | tally (F : FloatOps) (env : Env)
-  | commit
 
 /-- one step of a history; `elect` computes the malicious set from the current records, which is
     what the code does when no RELEASE ran between BeginBlock and EndBlock (the general case is
@@ -487,7 +483,6 @@ def step (st : State) : Op → State
   | .elect minSelf top h pop =>
     { st with vstat := (elect minSelf top h (malOf st.susp) pop st.vstat).vstat }
   | .tally F env => tally F env st
-  | .commit => { st with committed := akeys st.reqs }
 
 def run (st : State) (ops : List Op) : State := ops.foldl step st
 
